@@ -83,6 +83,29 @@ def _map_class_reference(reference, definitions_schema):
     return {"$ref": f"#/definitions/{name}"}
 
 
+def _element_schema(field, definitions_schema, serialization_mapper=None):
+    """
+    Schema of a field in element position (array / tuple / set item, map value). There, unlike
+    at class level where a None attribute is simply not serialized, AnyOf[X, None] (Optional[X])
+    holding None is serialized as null, so null must be admitted next to X.
+    """
+    if isinstance(field, list):
+        return [
+            _element_schema(f, definitions_schema, serialization_mapper) for f in field
+        ]
+    schema = convert_to_schema(
+        field, definitions_schema, serialization_mapper=serialization_mapper
+    )
+    if (
+        isinstance(field, AnyOf)
+        and len(field._fields) == 2
+        and field._fields[1].__class__ == NoneField
+        and isinstance(schema, dict)
+    ):
+        return {"anyOf": [schema, {"type": "null"}]}
+    return schema
+
+
 def _const_to_schema(field: Constant):
     val = field()
     return {"enum": [val.name if isinstance(val, enum.Enum) else val]}
@@ -289,6 +312,8 @@ def _convert_field_to_schema_code_internal(additional_fields, definitions, schem
         mapper = get_mapper(cls)
     else:
         object_type = schema.get("type", "object")
+        if object_type == "null":
+            return "NoneField()"
         if object_type == "object":
             if SCHEMA_PROPETIES in schema:
                 cls = StructureReference
@@ -655,7 +680,7 @@ class MapMapper(Mapper):
             if keys.maxLength or keys.minLength:
                 suffix = f"{{{keys.minLength or ''}, {keys.maxLength or ''}}}"
             pattern_props = f"{keys.pattern or ''}{suffix}" or None
-            values_schema = convert_to_schema(
+            values_schema = _element_schema(
                 values, definitions, serialization_mapper=serialization_mapper
             )
             if pattern_props:
@@ -738,7 +763,7 @@ class ArrayMapper(Mapper):
             params = {
                 "type": "array",
                 "uniqueItems": value.uniqueItems,
-                "items": convert_to_schema(
+                "items": _element_schema(
                     value.items[0], definitions, serialization_mapper
                 ),
             }
@@ -747,7 +772,7 @@ class ArrayMapper(Mapper):
                 "type": "array",
                 "uniqueItems": value.uniqueItems,
                 "additionalItems": False,
-                "items": convert_to_schema(
+                "items": _element_schema(
                     value.items, definitions, serialization_mapper
                 ),
             }
@@ -757,7 +782,7 @@ class ArrayMapper(Mapper):
                 "uniqueItems": True,
                 "maxItems": value.maxItems,
                 "minItems": value.minItems,
-                "items": convert_to_schema(
+                "items": _element_schema(
                     value.items, definitions, serialization_mapper
                 ),
             }
@@ -768,7 +793,7 @@ class ArrayMapper(Mapper):
                 "additionalItems": value.additionalItems,
                 "maxItems": value.maxItems,
                 "minItems": value.minItems,
-                "items": convert_to_schema(
+                "items": _element_schema(
                     value.items, definitions, serialization_mapper
                 ),
             }
